@@ -13,13 +13,14 @@ case "$VAR" in
   plain) CC=gcc ;;
   asan)  CC=gcc; CF="$CF -fsanitize=address,undefined -fno-sanitize-recover=undefined -fno-omit-frame-pointer" ;;
   fault) CC=gcc; CF="$CF -fsanitize=address,undefined -fno-sanitize-recover=undefined -fno-omit-frame-pointer" ;;
+  cov|covfault) CC=gcc; CF="$CF -O0 --coverage" ;;   # tools/coverage.py only: which lines of the code the generated cases reach
 esac
-if [ "$VAR" = fault ]; then
+if [ "$VAR" = fault ] || [ "$VAR" = covfault ]; then
   $CC $CF -include "$HERE/fault_alloc.h" -c "$REPO/src/confuse.c" -o confuse.o
 else
   $CC $CF -c "$REPO/src/confuse.c" -o confuse.o
 fi
-if [ "$VAR" = fault ]; then
+if [ "$VAR" = fault ] || [ "$VAR" = covfault ]; then
   $CC $CF -DVERIF_FREE_ONLY -include "$HERE/fault_alloc.h" -c lexer.c -o lexer.o
 else
   $CC $CF -c lexer.c -o lexer.o
